@@ -6,6 +6,7 @@ pub mod c04;
 pub mod c05;
 pub mod c09;
 pub mod c10;
+pub mod c11;
 pub mod c15;
 pub mod c16;
 pub mod c17;
@@ -22,6 +23,7 @@ pub fn run(id: &str, eng: &mut Engine) -> bool {
         "C05" => c05::run(eng),
         "C09" => c09::run(eng),
         "C10" => c10::run(eng),
+        "C11" => c11::run(eng),
         "C15" => c15::run(eng),
         "C16" => c16::run(eng),
         "C17" => c17::run(eng),
